@@ -88,6 +88,36 @@ def _run(ck: core.Check, pool):
             seed = rng.randrange(10**6)
             for sel in ("reference", "onnxruntime"):
                 tasks.append({"level": "c07prog", "steps": steps, "sel": sel, "seed": seed, "derived": t})
+    # inlined LEGACY-opset models fed with constants (semantics-changed operators, imported versions 6..21,
+    # newer-opset companions), every template x imported version band
+    try:
+        from harness import lib_vplegacy as LG
+
+        n_leg = ck.pick(4, 40)
+        for t in sorted(LG.TEMPLATES):
+            vers = LG.TEMPLATES[t]
+            n_t = n_leg * LG.WEIGHT.get(t, 1)
+            for ver in (rng.sample(vers, min(n_t, len(vers))) + [rng.choice(vers) for _ in range(max(0, n_t - len(vers)))]):
+                steps = LG.gen_legacy_program(rng, t, ver)
+                seed = rng.randrange(10**6)
+                for sel in ("reference", "onnxruntime"):
+                    tasks.append({"level": "c07prog", "steps": steps, "sel": sel, "seed": seed, "legacy": t})
+    except Exception as e:  # noqa: BLE001
+        ck.broken("oracle", "C07 legacy-inline generator", f"{type(e).__name__}: {str(e)[:200]}")
+    # operators whose reference implementation computes in another dtype than the ONNX operator (ml domain,
+    # integer / float64 / float16 inputs): every KEPT value is compared with the runtime
+    try:
+        from harness import lib_vpdtype as DT
+
+        n_dt = ck.pick(3, 30)
+        for t in DT.TEMPLATES:
+            for _ in range(n_dt):
+                steps = DT.gen_dtype_program(rng, t)
+                seed = rng.randrange(10**6)
+                for sel in ("reference", "onnxruntime"):
+                    tasks.append({"level": "c07prog", "steps": steps, "sel": sel, "seed": seed, "dtype": t})
+    except Exception as e:  # noqa: BLE001
+        ck.broken("oracle", "C07 dtype-operator generator", f"{type(e).__name__}: {str(e)[:200]}")
     pending = pool.map_async(_task, tasks, chunksize=4)
 
     # ---- translate (tie G): who overrides propagate_values
@@ -97,6 +127,12 @@ def _run(ck: core.Check, pool):
         ck.cov["propagate_values_overrides"] = [list(e) for e in vp_overrides.generate()]
     except Exception as e:  # noqa: BLE001
         ck.broken("translator", "vp_overrides", f"{type(e).__name__}: {str(e)[:200]}")
+    try:
+        from translator import vp_sampling
+
+        ck.cov["propagation_guards"] = vp_sampling.generate()
+    except Exception as e:  # noqa: BLE001
+        ck.broken("translator", "vp_sampling", f"{type(e).__name__}: {str(e)[:200]}")
     # ---- prove
     ck.lean(["SpoxModel.Props.C07"], audit="SpoxModel.Audit.C07")
     if ck.thorough:
@@ -141,6 +177,8 @@ def _run(ck: core.Check, pool):
     ck.cov.update({
         "oracle_programs": len(tasks), "oracle_totals": tot,
         "derived_type_templates": P.DERIVED_TEMPLATES, "derived_type_programs": sum(1 for t in tasks if t.get("derived")),
+        "legacy_inline_programs": sum(1 for t in tasks if t.get("legacy")),
+        "dtype_operator_programs": sum(1 for t in tasks if t.get("dtype")),
     })
     ck.exhaustive = False
     ck.rule = (
@@ -168,7 +206,7 @@ def _correspond(ck, rng):
     hist_reqs, hist_real, hist_meta = [], [], []
     skipped = raised = 0
     for _ in range(ck.pick(60, 500)):
-        steps = P.gen_program(rng, PROGRAM_SIZE, control_flow=False)
+        steps = P.gen_program(rng, PROGRAM_SIZE, control_flow=False, random_ops=True)
         sel = rng.choice(["reference", "onnxruntime"])
         script = None
         fault = None
